@@ -415,6 +415,7 @@ type snapObj struct {
 	Owner    string `json:"owner"`
 	Deleting bool   `json:"deleting"`
 	Rev      string `json:"rev"`
+	Frm      string `json:"frm"` // data.from: the field apply-time mutation writes ("" = absent)
 }
 
 type snapshot struct {
@@ -442,8 +443,9 @@ func takeSnapshot(c *fakecluster.Cluster) snapshot {
 			continue
 		}
 		rev, _, _ := unstructured.NestedString(o.Object, "data", "rev")
+		frm, _, _ := unstructured.NestedString(o.Object, "data", "from")
 		s.Objs = append(s.Objs, snapObj{ID: jidOfKey(k), UID: string(o.GetUID()), Gen: o.GetGeneration(),
-			Owner: o.GetAnnotations()[inventory.OwningInventoryKey], Deleting: o.GetDeletionTimestamp() != nil, Rev: rev})
+			Owner: o.GetAnnotations()[inventory.OwningInventoryKey], Deleting: o.GetDeletionTimestamp() != nil, Rev: rev, Frm: frm})
 	}
 	return s
 }
